@@ -1,6 +1,8 @@
 package main
 
 import (
+	"bytes"
+	"encoding/binary"
 	"errors"
 	"fmt"
 	"math/rand"
@@ -107,6 +109,12 @@ func drawHistory(rng *rand.Rand, i int) []string {
 // violations; returns number of builds done and how many ran on a recycled builder.
 func runHistory(c *Ctx, r *oracle.Report, id string, rng *rand.Rand, kinds []string, batches []*model.Batch, mode uint32, countPool bool) {
 	prev := "start"
+	images := map[int][]byte{}
+	defer func() {
+		if countPool {
+			compareWithFreshBuilder(r, id, kinds, batches, images)
+		}
+	}()
 	for k, b := range batches {
 		tag := fmt.Sprintf("%s/build%d(%s after %s)", id, k, kinds[k], prev)
 		var newBefore int64
@@ -130,11 +138,17 @@ func runHistory(c *Ctx, r *oracle.Report, id string, rng *rand.Rand, kinds []str
 				return
 			}
 			defer seg.Close()
+			if countPool && byteComparable(b) {
+				var buf bytes.Buffer
+				if _, err := writeTo(seg, &buf); err == nil {
+					images[k] = buf.Bytes()
+				}
+			}
 			m := model.Build(b)
 			oracle.CheckPostings(r, tag, seg, m, oracle.PostOpts{ChunkMode: mode, AbsentFields: absentFields, AbsentTerms: absentTerms})
 			oracle.CheckStored(r, tag, seg, m, 2)
 			oracle.CheckIDs(r, tag, seg, m, nil)
-			oracle.CheckDocValues(r, []oracle.DVTarget{{Tag: tag, Seg: seg, M: m}}, rng, 1024, []string{"zz_absent"})
+			oracle.CheckDocValues(r, []oracle.DVTarget{{Tag: tag, Seg: seg, M: m}}, rng, uint64(zx.DVChunk()), []string{"zz_absent"})
 			oracle.CheckThesaurus(r, tag, seg, m, oracle.ThesOpts{UnknownNames: []string{"nothes", "th1", "th2", "syn.a", "Σsyn"}, UnknownTerms: []string{"unk", "car"}})
 			if VecBuild {
 				checkVectors(c, tag, seg, m, rng)
@@ -178,7 +192,11 @@ func c10seq(c *Ctx) {
 			continue
 		}
 		zx.SetChunkMode(mode)
+		// doc-value chunk size: small ones give "large" batches many chunks
+		dvc := []uint32{1024, 2, 1, 5, 1024, 3, 16}[(i/len(histKinds))%7]
+		zx.SetDVChunk(dvc)
 		runHistory(c, c.R, id, rng, kinds, batches, mode, true)
+		zx.SetDVChunk(1024)
 		for k := 1; k < len(kinds); k++ {
 			pairs[kinds[k-1]+">"+kinds[k]] = true
 		}
@@ -257,4 +275,98 @@ func emptyPairs(rng *rand.Rand) []model.SynPair {
 		return nil
 	}
 	return []model.SynPair{{Term: "lonely"}, {Term: "a"}}
+}
+
+// byteComparable: batches without synonym definitions and vectors. Only the
+// inverted-index section writes anything for them, so everything in front of
+// the per-field records is a function of the batch (the sections are persisted
+// in map order, which moves their bytes around when several of them write).
+func byteComparable(b *model.Batch) bool {
+	for i := range b.Docs {
+		if len(b.Docs[i].Syn) > 0 || len(b.Docs[i].Vecs) > 0 {
+			return false
+		}
+	}
+	return true
+}
+
+// fieldRecordsStart: offset of the first per-field record (the records and the
+// fields index behind them list the sections in map order).
+func fieldRecordsStart(img []byte) (uint64, bool) {
+	f, err := parseFooter(img)
+	if err != nil || f.SectionsIdx >= uint64(len(img)) {
+		return 0, false
+	}
+	n, w := binary.Uvarint(img[f.SectionsIdx:])
+	if w <= 0 {
+		return 0, false
+	}
+	start := f.SectionsIdx
+	for k := uint64(0); k < n; k++ {
+		o := f.SectionsIdx + uint64(w) + 8*k
+		if o+8 > uint64(len(img)) {
+			return 0, false
+		}
+		if a := binary.BigEndian.Uint64(img[o:]); a < start {
+			start = a
+		}
+	}
+	return start, true
+}
+
+// compareWithFreshBuilder: "determined by the batch and the chunk mode alone",
+// byte for byte. The last builds of the history are repeated on a builder that
+// has never been used (two collections empty the pool; the pool hook confirms
+// that a new builder was made) and the two images are compared: same length,
+// same footer offsets, same bytes in front of the per-field records.
+func compareWithFreshBuilder(r *oracle.Report, id string, kinds []string, batches []*model.Batch, images map[int][]byte) {
+	done := 0
+	for k := len(batches) - 1; k >= 0 && done < 3; k-- {
+		img, ok := images[k]
+		if !ok {
+			continue
+		}
+		done++
+		runtime.GC()
+		runtime.GC()
+		before, _ := zx.PoolStats()
+		var ref []byte
+		guard(r, id+" reference build", func() {
+			seg, _, err := zx.Build(batches[k])
+			if err != nil {
+				return
+			}
+			defer seg.Close()
+			var buf bytes.Buffer
+			if _, err := writeTo(seg, &buf); err == nil {
+				ref = buf.Bytes()
+			}
+		})
+		after, _ := zx.PoolStats()
+		if ref == nil || after == before {
+			r.Inc("reference_builds_not_on_a_fresh_builder", 1)
+			continue
+		}
+		tag := fmt.Sprintf("%s/build%d(%s)", id, k, kinds[k])
+		fa, e1 := parseFooter(img)
+		fb, e2 := parseFooter(ref)
+		sa, ok1 := fieldRecordsStart(img)
+		sb, ok2 := fieldRecordsStart(ref)
+		switch {
+		case e1 != nil || e2 != nil || !ok1 || !ok2:
+			r.Fail("trace-unparsable", "%s: image built in the history or on a fresh builder has no parsable footer / fields index", tag)
+		case len(img) != len(ref):
+			r.Fail("trace-size", "%s: %d bytes when built in this history, %d bytes when built on a fresh builder", tag, len(img), len(ref))
+		case fa.NumDocs != fb.NumDocs || fa.StoredIdx != fb.StoredIdx || fa.SectionsIdx != fb.SectionsIdx || fa.DVOff != fb.DVOff || fa.ChunkMode != fb.ChunkMode || sa != sb:
+			r.Fail("trace-footer", "%s: footer %+v (records at %d) when built in this history, %+v (records at %d) on a fresh builder", tag, fa, sa, fb, sb)
+		case !bytes.Equal(img[:sa], ref[:sb]):
+			d := 0
+			for d < int(sa) && img[d] == ref[d] {
+				d++
+			}
+			r.Fail("trace-bytes", "%s: the image built in this history differs from the one built on a fresh builder at byte %d of %d", tag, d, sa)
+		}
+		r.Inc("images_compared_with_fresh_builder", 1)
+		r.Inc("image_bytes_compared_with_fresh_builder", int64(sa))
+	}
 }
